@@ -233,6 +233,18 @@ def parse_model_dump(s: str, iters: bool) -> dict[str, list[str]]:
     return out
 
 
+def split_labels(s: str) -> list[str]:
+    """a '.'-joined list of labels -> labels. A merged string's label (`s1001.9`, text "1001.9.") itself contains dots: a token
+    that does not begin with a letter continues the previous label."""
+    out: list[str] = []
+    for tk in s.split("."):
+        if out and tk[:1].isdigit():
+            out[-1] += "." + tk
+        else:
+            out.append(tk)
+    return out
+
+
 def canon(d: dict[str, list[str]], soups: set[str]) -> dict[str, list[str]]:
     """Remove the freedom the property grants: a BeautifulSoup root may stand outside the element chain.
     root.ne in {none, first child} -> '*'; first child's pe in {none, root} -> '*'; a trailing root is dropped
@@ -241,7 +253,7 @@ def canon(d: dict[str, list[str]], soups: set[str]) -> dict[str, list[str]]:
     for l, row in d.items():
         row = list(row)
         parent, ps, ns, pe, ne, kids = row[:6]
-        first = kids.split(".")[0] if kids != "-" else None
+        first = split_labels(kids)[0] if kids != "-" else None
         if l in soups:
             if ne == "-" or ne == first:
                 row[4] = "*"
@@ -250,7 +262,7 @@ def canon(d: dict[str, list[str]], soups: set[str]) -> dict[str, list[str]]:
         if parent in soups and ps == "-" and (pe == "-" or pe == parent):
             row[3] = "*"
         if len(row) > 6:
-            pv = row[8].split(".") if row[8] != "-" else []
+            pv = split_labels(row[8]) if row[8] != "-" else []
             if pv and pv[-1] in soups:
                 pv = pv[:-1]
             row[8] = ".".join(pv) if pv else "-"
@@ -364,6 +376,13 @@ def oracle_c01(w: World) -> Optional[str]:
                 sub = subtree(n)[1:]
                 if not same(desc, sub):
                     return f"{w.label(n)}.descendants = {w.labels(desc)}, expected {w.labels(sub)}"
+    # every live object is a root or a child of its parent: one that names a parent without being among its children (left behind
+    # half-linked by a call that gave up midway) is in no tree at all and was never visited above
+    for o in objs:
+        if id(o) not in seen and not getattr(o, "_decomposed", False):
+            p = o.parent
+            if p is not None and not any(c is o for c in getattr(p, "contents", [])):
+                return f"{w.label(o)}.parent is {w.label(p)} but it is not among {w.label(p)}'s children"
     return None
 
 
@@ -665,6 +684,10 @@ def gen_op(rng, w: World, stats) -> Optional[str]:
         if k == "in" and tags:
             l, o = rng.choice(tags)
             pos = rng.randint(0, len(o.contents) + 1)
+            if rng.random() < 0.25:
+                # any Python integer is a position: negative ones count from the end as in list.insert (clamped at the front)
+                pos = rng.randint(-(len(o.contents) + 2), -1)
+                stats["pos:negative"] += 1
             return f"in:{l}:{pos}:{','.join(pick_args(o, nargs()))}"
         if k == "et" and len(tags) >= 1:
             l, o = rng.choice(tags)
